@@ -22,7 +22,9 @@ import (
 // captureFirst returns the first packet the Cloak server would see for this client configuration
 // (direct: the ClientHello record; cdn: the HTTP GET behind the TLS terminator). Free-running.
 func captureFirst(cs hsCase, uid []byte) (first []byte, r *e2eRig) {
-	r = newE2ERig(newMemManager(), [][]byte{uid}, nil)
+	// no user panel: nothing started here may outlive the capture (a later scheduled exploration in the
+	// same process must be the only thing running)
+	r = newE2ERig(nil, [][]byte{uid}, nil)
 	if cs.Transport == "cdn" {
 		r.startCDN(1)
 	}
@@ -31,10 +33,13 @@ func captureFirst(cs hsCase, uid []byte) (first []byte, r *e2eRig) {
 	if err != nil {
 		panic(err)
 	}
+	hsDone := make(chan struct{})
 	go func() {
+		defer close(hsDone)
 		tr := remote.Transport.CreateTransport()
 		tr.Handshake(conn, auth)
 	}()
+	defer func() { <-hsDone }()
 	c, err := r.srvL.Accept()
 	if err != nil {
 		panic(err)
